@@ -134,6 +134,9 @@ def replay_record(rec, rtol=2e-3, atol=2e-4, unroll=10**6):
   except Exception as ex:
     import traceback
     tb = traceback.extract_tb(ex.__traceback__)
+    import os
+    if os.environ.get("WSYM_DEBUG"):
+      traceback.print_exc()
     return "unsupported", f"INTERNAL {type(ex).__name__}: {ex} @ {tb[-1].name}:{tb[-1].lineno}"
   # compare
   for (label, t), a, post in zip(specs, rec.args, rec.post):
@@ -145,7 +148,8 @@ def replay_record(rec, rtol=2e-3, atol=2e-4, unroll=10**6):
     if cells[key].dtype == "real":
       w = want.astype(np.float64)
       finite = np.isfinite(w)
-      if not np.allclose(got[finite], w[finite], rtol=rtol, atol=atol):
+      scale = float(np.max(np.abs(w[finite]))) if finite.any() else 0.0
+      if not np.allclose(got[finite], w[finite], rtol=rtol, atol=atol + 1e-5 * scale):
         diff = np.abs(got - w)
         diff[~finite] = 0
         i = np.unravel_index(np.argmax(diff), diff.shape)
